@@ -94,6 +94,8 @@ def rand_scenario(rng, family, policies=False):
         cfg["selfhints"] = False
     if rng.random() < 0.3:
         cfg["paytimeout"] = rng.choice([1, 2, 3])     # short payment timeout: a waitsendpay timeout, if requested, can fire
+    if rng.random() < 0.3:
+        cfg["xpay"] = True                            # the pay request is built by the other branch of pay()
     if rng.random() < 0.08:
         # the largest MPP timeout the option accepts ("never time out"): the trace carries 1_000_000
         cfg["mpp"] = 1000000
@@ -273,13 +275,15 @@ def class_jobs(seed, tier, start_run=1):
               [(18, "")], [(10, "aabb"), (65, "")], [(7, ""), (4294967297, "")]]
     for sh, h in cases:
         cfg = dict(CFG_A); cfg["selfhints"] = sh
+        if rng.random() < 0.3:
+            cfg["xpay"] = True
         h = dict(h); h["extra"] = rng.choice(extras)
         sc = {"cfg": cfg, "invs": CLASS_INVS, "htlcs": [h], "probe": []}
         jobs.append({"run": runno, "scen": sc, "sched": [{"a": "htlc", "i": 1}], "drain": True, "tag": "class", "payload": True,
                      "rand": {"seed": rng.getrandbits(40), "steps": 0}})
         runno += 1
     # payment hashes that differ only a little from the hash the attached invoice is for
-    for v in range(1, 8):
+    for v in range(1, 12):
         for inv in (1, 2):
             cfg = dict(CFG_A)
             h = H("near:h1:%d" % v, inv, 100, 100, cfg["h0"] + cfg["pdelta"] + 50, cfg["pdelta"] + 50,
@@ -435,5 +439,50 @@ def poll_window_jobs(start_run=1):
                 sched += [{"a": "tick"}] * (cfg["mpp"] + 2)
                 jobs.append({"run": run, "scen": {"cfg": cfg, "invs": INVS, "htlcs": [full, part], "probe": []},
                              "sched": sched, "drain": True, "realblocks": True, "tag": "pollwindow"})
+                run += 1
+    return jobs
+
+
+# ---------------------------------------------------------------------------------------------
+# Directed schedules: a payment that stays undecided for a long time (many MPP timeouts) while its parts, which arrived
+# at different moments, are held: the pay command is slow, or the restart path waits for a part of the interrupted
+# attempt.  However long it takes, the parts get the same resolution together (C07, C02, C06).
+def slow_decision_jobs(start_run=1):
+    jobs = []
+    run = start_run
+    ds = lambda key: {"kind": "ds", "hash": "h1", "key": key}
+    X = lambda sel, fault="none": {"a": "exec", "sel": sel, "fault": fault}
+    D = lambda sel: {"a": "deliver", "sel": sel}
+    for mpp in (1, 2):
+        for long in (12 * mpp + 3, 25 * mpp):
+            for outcome in ("complete", "failed"):
+                cfg = dict(CFG_A); cfg["mpp"] = mpp
+                p = pool(cfg, 10)
+                g1, g2 = p["good"][0], p["good"][1]
+                sc = {"cfg": cfg, "invs": invs_for(10), "htlcs": [g1, g2], "probe": []}
+                lds = {"kind": "listds", "hash": "h1"}
+                # (a) live path: part 1, a little later part 2, pay issued, pay takes `long` seconds
+                s = [{"a": "htlc", "i": 1}, X(lds), D(lds), {"a": "tick"} if mpp > 1 else {"a": "htlc", "i": 2}, {"a": "htlc", "i": 2},
+                     X(ds("state")), D(ds("state")), X(ds("att")), D(ds("att")), X({"kind": "pay", "hash": "h1"}),
+                     {"a": "paypart", "sel": {"kind": "pay", "hash": "h1"}}]
+                s += [{"a": "tick"}] * long
+                s += [{"a": "partdone", "p": 1, "how": outcome, "code": 203},
+                      {"a": "payreturn", "sel": {"kind": "pay", "hash": "h1"}, "outcome": outcome}, D({"kind": "pay", "hash": "h1"})]
+                jobs.append({"run": run, "scen": sc, "sched": s, "drain": True, "tag": "directed:slow_pay"})
+                run += 1
+                # (b) restart path: crash while the part is in flight, both parts replayed at different moments, the part
+                #     resolves `long` seconds later
+                s = [{"a": "htlc", "i": 1}, X(lds), D(lds), {"a": "htlc", "i": 2},
+                     X(ds("state")), D(ds("state")), X(ds("att")), D(ds("att")), X({"kind": "pay", "hash": "h1"}),
+                     {"a": "paypart", "sel": {"kind": "pay", "hash": "h1"}}, {"a": "crash", "lose": False},
+                     {"a": "htlc", "i": 1}, X(lds), D(lds),
+                     X({"kind": "lists", "hash": "h1", "status": "pending"}), D({"kind": "lists", "hash": "h1", "status": "pending"}),
+                     X({"kind": "lists", "hash": "h1", "status": "complete"}), D({"kind": "lists", "hash": "h1", "status": "complete"})]
+                s += [{"a": "tick"}] * (long // 2)
+                s += [{"a": "htlc", "i": 2}]
+                s += [{"a": "tick"}] * (long - long // 2)
+                s += [{"a": "partdone", "p": 1, "how": outcome, "code": 203},
+                      X({"kind": "wait", "hash": "h1", "part": 1}), D({"kind": "wait", "hash": "h1", "part": 1})]
+                jobs.append({"run": run, "scen": sc, "sched": s, "drain": True, "tag": "directed:slow_restart"})
                 run += 1
     return jobs
